@@ -20,7 +20,7 @@ RUNS = {'quick': 2400, 'thorough': 12000}
 CHUNK = 10
 RECHECK_MOD = 41
 SWITCHES = ['show_timestamp', 'show_name', 'show_func_qual', 'show_tid', 'show_process', 'show_args']
-PROBES = ['undeclared_thread', 'thread_declared_by_newthread_record', 'mapping_superseded_by_terminate_pid', 'mapping_superseded_by_sampler',
+PROBES = ['terminate_names_declared_thread', 'huge_thread_id', 'earlier_request_other_object', 'undeclared_thread', 'thread_declared_by_newthread_record', 'mapping_superseded_by_terminate_pid', 'mapping_superseded_by_sampler',
           'process_renamed_by_exec', 'window_straddles_update', 'earlier_request_other_dump', 'all_64_configs', 'colour_compared',
           'callstack_lines', 'log_lines', 'wallclock_timestamps', 'kevents_superseded_thread']
 RULE = ('one run = one simulated dump (2..4 threads, thread map declaring a subset, map-updating records aimed at other threads, seeded '
@@ -47,6 +47,8 @@ def _configs(tier, rng_choice):
 def generate(rng, index, tier):
     nthreads = rng.randint(2, 4)
     tids = [700 + 9 * i + rng.randrange(5) for i in range(nthreads)]
+    if rng.chance(0.25):
+        tids[-1] = rng.pick([(1 << 40) + 5, 999999999999, (1 << 63) + 12345, 123456789012345])     # a real 64-bit thread id
     declared = [t for t in tids if rng.chance(0.55)]
     pids = {t: 60000 + i for i, t in enumerate(tids)}
     threads = []
@@ -70,6 +72,13 @@ def generate(rng, index, tier):
                 nfr = rng.randint(1, 5)
                 ops.append(worlds.op_sample(rng, flags=9, thd=(rng.pick([pids[target], 61000 + rng.randrange(5)]), target),
                                             uhdr=(1, nfr), udata=[[rng.randrange(1, 1 << 40) for _ in range(4)] for _ in range(2)]))
+            elif r < 0.94:
+                # a thread-terminate record naming a (declared or undeclared) simulated thread: not a map-updating record
+                ops.append({'k': 'one', 'name': 'TRACE_DATA_THREAD_TERMINATE', 'q': 0, 'a': [rng.pick(tids), 0, 0, 0]})
+            elif r < 0.97:
+                # a name string whose data record is not in the dump (declares nothing), or a data record never followed by its string
+                ops.append(kernel.text_one(rng.pick(['TRACE_STRING_NEWTHREAD', 'TRACE_STRING_EXEC']), rng.ident(2, 8)) if rng.chance(0.6) else
+                           {'k': 'one', 'name': rng.pick(['TRACE_DATA_NEWTHREAD', 'TRACE_DATA_EXEC']), 'q': 0, 'a': [rng.pick(tids), rng.pick(list(pids.values())), 0, 0]})
             else:
                 ops.append(worlds.op_imap(rng, rng.randbytes(16).hex(), rng.randrange(1, 1 << 30) << 12))
         # an enclosing window that straddles other threads' announcements
@@ -91,6 +100,10 @@ def generate(rng, index, tier):
         w['pad'] = rng.pick([0, 64])
     dump = {'threads': threads, 'schedule': sched, 'writer': w, 't0': (rng.randrange(1, 1 << 40) << 8) | 1}
     scn = {'dump': dump, 'colour_lines': 6, 'wallclock': rng.chance(0.3), 'all64': tier == 'thorough' or index % 8 == 0}
+    if rng.chance(0.25):
+        # an earlier request on ANOTHER PyKdebugParser object in the same process whose dump ends with unanswered data records of
+        # these very threads, naming pids this dump uses (nothing of it may reach this dump's lines)
+        scn['earlier_other'] = [[t, rng.pick(list(pids.values()))] for t in tids]
     if rng.chance(0.3):
         scn['earlier'] = worlds.gen_dump(rng, version=2, nthreads=2, mix={'bsd': 2, 'tracedom': 3}, declare_all=True, logs=False)
         # the earlier dump declares the tids this dump leaves undeclared
@@ -136,6 +149,8 @@ def _tables_states(tmap, stream, table, reapply=False):
             elif name == 'PERF_THD_Data':
                 tp[r['a'][1]] = r['a'][0]
                 kinds.add('sampler')
+            elif name == 'TRACE_DATA_THREAD_TERMINATE' and r['a'][0] in tp:
+                kinds.add('terminate')
         states.append((dict(tp), dict(pn)))
     return states, kinds
 
@@ -172,6 +187,19 @@ def execute(scn):
     dump = scn['dump']
     data, stream, table = worlds.dump_bytes(dump)
     earlier = worlds.dump_bytes(scn['earlier'])[0] if scn.get('earlier') else None
+    if any(th['tid'] >= 10 ** 11 for th in dump['threads']):
+        bump('probe:huge_thread_id')
+    if scn.get('earlier_other'):
+        bump('probe:earlier_request_other_object')
+        bump('fault:residue')
+        eo_threads = [{'tid': t, 'ops': [{'k': 'one', 'name': 'TRACE_DATA_NEWTHREAD', 'q': 0, 'a': [t, pid, 0, 0]},
+                                          {'k': 'one', 'name': 'TRACE_DATA_EXEC', 'q': 0, 'a': [pid, 1, 2, 0]},
+                                          {'k': 'sys', 'name': 'BSC_read', 's': [1, 2, 3, 4], 'e': [0, 0, 0, 0], 'in': [], 'noend': True}]}
+                      for t, pid in scn['earlier_other']]
+        eo_data = worlds.dump_bytes({'threads': eo_threads, 'schedule': [], 'writer': {'version': 2, 'tmap': [], 'pad': 0}})[0]
+        other = tool.pk_mod.PyKdebugParser()
+        common.drain(lambda: other.formatted_traces(SimReader(eo_data), table))
+        common.drain(lambda: other.formatted_callstacks(SimReader(eo_data), table))
     if earlier:
         bump('probe:earlier_request_other_dump')
         bump('fault:residue')
@@ -343,7 +371,7 @@ def execute(scn):
                 break
         for k in upd_kinds:
             bump({'termpid': 'probe:mapping_superseded_by_terminate_pid', 'sampler': 'probe:mapping_superseded_by_sampler',
-                  'exec': 'probe:process_renamed_by_exec', 'newthread': 'upd_newthread'}[k])
+                  'exec': 'probe:process_renamed_by_exec', 'newthread': 'upd_newthread', 'terminate': 'probe:terminate_names_declared_thread'}[k])
         shapes.add((kind, tuple(sorted(upd_kinds)), bool(set(r['t'] for r in stream) - declared_ever)))
     return {'violations': viols, 'digest': digest_of(scn, hist), 'stats': stats, 'nontrivial': nontrivial,
             'shape': repr(sorted(shapes)), 'extent': {'records_delivered': len(stream) * len(cfgs) * 4, 'configurations': len(cfgs)}}
